@@ -115,7 +115,7 @@ func (association *Association) Replace(values ...interface{}) error {
 					updateMap[ref.ForeignKey.DBName] = nil
 				}
 
-				association.Error = association.DB.UpdateColumns(updateMap).Error
+				association.Error = association.DB.Session(&Session{}).UpdateColumns(updateMap).Error
 			}
 			if association.Unscope && oldBelongsToExpr != nil {
 				association.Error = association.DB.Model(nil).Where(oldBelongsToExpr).Delete(reflect.New(rel.FieldSchema.ModelType).Interface()).Error
